@@ -10,9 +10,10 @@ import CklVerif.Driver.ParserCmd
 import CklVerif.Driver.LexerCmd
 import CklVerif.Driver.FrontCmd
 import CklVerif.Driver.StrCmd
+import CklVerif.Driver.LibCmd
 open Ckl
 
-def handlers : List (Sx → Option Sx) := [handleValue, handleSeqDate, handleEval, handleParser, handleLexer, handleFront, handleStr]
+def handlers : List (Sx → Option Sx) := [handleValue, handleSeqDate, handleEval, handleParser, handleLexer, handleFront, handleStr, handleLib]
 
 def dispatch (req : Sx) : Sx :=
   match handlers.findSome? (fun h => h req) with
